@@ -604,3 +604,104 @@ func isConstTrue(v ssa.Value) bool {
 	k, ok := v.(*ssa.Const)
 	return ok && k.Value != nil && k.Value.Kind() == constant.Bool && constant.BoolVal(k.Value)
 }
+
+// constSetTest is one test "value ∈ {constants}" found in a function, whatever its spelling: a lookup in a map
+// literal (comma-ok or bool-valued; local or package-level), a switch / chain of equality comparisons with
+// constants, or a membership function over a slice literal.
+type constSetTest struct {
+	set    []string  // sorted, unquoted
+	member []edge    // edges on which the value is known to be in the set
+	pos    token.Pos // where the test is
+	blk    *ssa.BasicBlock
+}
+
+// constSetTests finds the tests of values whose path (under env) satisfies isX against constant string sets in g.
+func (c *Ctx) constSetTests(g *ssa.Function, env Env, isX func(path string) bool) []constSetTest {
+	var out []constSetTest
+	literalOf := func(v ssa.Value) ([]string, bool) {
+		switch m := v.(type) {
+		case *ssa.MakeMap:
+			return c.mapLiteralKeys(m)
+		case *ssa.UnOp:
+			if gl, ok := m.X.(*ssa.Global); ok && m.Op == token.MUL {
+				var ks []string
+				for _, mu := range c.globalMapUpdates(gl) {
+					k, isK := mu.Key.(*ssa.Const)
+					if !isK {
+						return nil, false
+					}
+					ks = append(ks, unquote(c.Path(k, nil)))
+				}
+				sort.Strings(ks)
+				return ks, len(ks) > 0
+			}
+		case *ssa.Slice:
+			if al, ok := m.X.(*ssa.Alloc); ok {
+				ks := constStringsOfAlloc(c, al)
+				return ks, len(ks) > 0
+			}
+		}
+		return nil, false
+	}
+	eqGroups := map[ssa.Value]*constSetTest{} // equality chains / switches, grouped by the tested value
+	var order []ssa.Value
+	for _, b := range g.Blocks {
+		for _, in := range b.Instrs {
+			switch x := in.(type) {
+			case *ssa.Lookup:
+				if !isX(c.Path(x.Index, env)) {
+					continue
+				}
+				ks, lit := literalOf(x.X)
+				if !lit {
+					continue
+				}
+				t := constSetTest{set: ks, pos: x.Pos(), blk: b}
+				if x.CommaOk {
+					if okv := extractOf2(x, 1); okv != nil {
+						t.member = boolEdgesT(okv, true)
+					}
+				} else if mt, isM := x.X.Type().Underlying().(*types.Map); isM {
+					if bt, isB := mt.Elem().Underlying().(*types.Basic); isB && bt.Kind() == types.Bool {
+						t.member = boolEdgesT(x, true)
+					}
+				}
+				out = append(out, t)
+			case *ssa.Call:
+				if cal := x.Call.StaticCallee(); cal != nil && len(x.Call.Args) == 2 && isX(c.Path(x.Call.Args[1], env)) {
+					if isM, _ := c.isMembershipFn(cal); isM {
+						if ks, lit := literalOf(x.Call.Args[0]); lit {
+							out = append(out, constSetTest{set: ks, member: boolEdgesT(x, true), pos: x.Pos(), blk: b})
+						}
+					}
+				}
+			case *ssa.BinOp:
+				if x.Op != token.EQL && x.Op != token.NEQ {
+					continue
+				}
+				v, k := x.X, x.Y
+				if _, isK := v.(*ssa.Const); isK {
+					v, k = k, v
+				}
+				kc, isK := k.(*ssa.Const)
+				if !isK || kc.Value == nil || kc.Value.Kind() != constant.String || !isX(c.Path(v, env)) {
+					continue
+				}
+				t := eqGroups[v]
+				if t == nil {
+					t = &constSetTest{pos: x.Pos(), blk: b}
+					eqGroups[v] = t
+					order = append(order, v)
+				}
+				t.set = append(t.set, constant.StringVal(kc.Value))
+				t.member = append(t.member, boolEdgesT(x, x.Op == token.EQL)...)
+			}
+		}
+	}
+	for _, v := range order {
+		t := eqGroups[v]
+		sort.Strings(t.set)
+		out = append(out, *t)
+	}
+	return out
+}
